@@ -4,8 +4,6 @@ use alloc::boxed::Box;
 use core::marker::PhantomData;
 use core::ops::Deref;
 use core::ptr::NonNull;
-use core::sync::atomic::fence;
-use core::sync::atomic::Ordering::SeqCst;
 
 pub struct BufRef<'buf, B> {
     inner: NonNull<B>,
@@ -67,13 +65,9 @@ impl<B> Deref for BufRef<'_, B> {
 impl<B: IterManager> BufRef<'_, B> {
     pub(crate) fn set_prod_alive(&mut self, alive: bool) {
         unsafe {
-            fence(SeqCst);
             self.inner.as_ref().set_prod_alive(alive);
 
-            let cond = !self.inner.as_ref().work_alive() && !self.inner.as_ref().cons_alive();
-            fence(SeqCst);
-
-            if cond {
+            if self.inner.as_ref().release_iter() {
                 self.drop();
             }
         }
@@ -81,13 +75,9 @@ impl<B: IterManager> BufRef<'_, B> {
 
     pub(crate) fn set_work_alive(&mut self, alive: bool) {
         unsafe {
-            fence(SeqCst);
             self.inner.as_ref().set_work_alive(alive);
 
-            let cond = !self.inner.as_ref().prod_alive() && !self.inner.as_ref().cons_alive();
-            fence(SeqCst);
-
-            if cond {
+            if self.inner.as_ref().release_iter() {
                 self.drop();
             }
         }
@@ -95,13 +85,9 @@ impl<B: IterManager> BufRef<'_, B> {
 
     pub(crate) fn set_cons_alive(&mut self, alive: bool) {
         unsafe {
-            fence(SeqCst);
             self.inner.as_ref().set_cons_alive(alive);
 
-            let cond = !self.inner.as_ref().prod_alive() && !self.inner.as_ref().work_alive();
-            fence(SeqCst);
-
-            if cond {
+            if self.inner.as_ref().release_iter() {
                 self.drop();
             }
         }
